@@ -50,12 +50,19 @@ def run(ctx):
     rb = ctx.build_harness(race=True, name="vhrace")
     extra = []
     pairs_run, start, restarts = 0, 0, 0
-    for charset in (["UTF-8"] if q else ["UTF-8", "ISO8859-1"]):
+    # the fallback map and the encoder only matter in a non-UTF-8 locale: the pairs around them always run there
+    core = ["CanDisplay", "RegisterRuneFallback", "UnregisterRuneFallback", "Show", "Sync", "SetContent", "Beep", "SetSize", "Fill"]
+    order = ["SetContent", "GetContent", "Fill", "Show", "Sync", "SetStyle", "ShowCursor", "SetCursorStyle", "Size", "EnableMouse",
+             "EnablePaste", "EnableFocus", "SetTitle", "SetClipboard", "Beep", "SetSize", "CanDisplay", "RegisterRuneFallback",
+             "UnregisterRuneFallback", "LockRegion", "Colors", "HasKey", "HasMouse", "CharacterSet", "PostEvent", "HasPendingEvent"]
+    corepairs = ",".join("%s:%s" % (a, b) for i, a in enumerate(order) for b in order[i:] if a in core and b in core)
+    plans = [("UTF-8", 3 if q else 1, ""), ("ISO8859-1", 1, corepairs)] + ([] if q else [("ISO8859-1", 1, ""), ("US-ASCII", 1, corepairs)])
+    for charset, stride, pairs in plans:
         start = 0
         while True:
             tf2 = ctx.work + "/race.ndjson"
             s2, _ = ctx.run_vh(["race", "--mode", "race", "--iters", 25 if q else 150, "--seed", ctx.seed, "--start", start,
-                                "--stride", 3 if q else 1, "--charset", charset, "--out", tf2],
+                                "--stride", stride, "--charset", charset, "--pairs", pairs, "--out", tf2],
                                timeout=3000, env={"GORACE": "halt_on_error=0"}, binary=rb, check=False)
             err = s2.get("_stderr", "")
             extra += parse_races(err)
